@@ -1,0 +1,53 @@
+//go:build verif
+
+// Contracts for package bitmap, checked by /verif/govc (comment-only file).
+
+package bitmap
+
+//@ global errNotInRange immutable
+//@ global errInvalidIP immutable
+//@ init-ensures errNotInRange != nil && errInvalidIP != nil
+
+// ---------------------------------------------------------------------------
+// IPv4 range allocator. Abstract view: bits(a.bitmap)[i] <=> address start+i is outstanding.
+
+//@ guard IPv4Allocator.bitmap by l
+
+//@ pure func wf4(a *IPv4Allocator) bool = a != nil && a.bitmap != nil && a.start <= a.end && \
+//@     blen(a.bitmap) == uint(a.end - a.start) + 1 && \
+//@     (forall i uint: i >= blen(a.bitmap) ==> !bits(a.bitmap)[i])
+//@ pure func inrange4(a *IPv4Allocator, ip net.IP) bool = isv4(ip) && v4of(ip) >= a.start && v4of(ip) <= a.end
+//@ pure func off4(a *IPv4Allocator, ip net.IP) uint = uint(v4of(ip) - a.start)
+
+//@ func (*IPv4Allocator).Allocate
+//@   requires wf4(a) && !held(a.l)
+//@   modifies bits(a.bitmap), blen(a.bitmap), held(a.l)
+//@   ensures wf4(a) && !held(a.l)
+//@   ensures[C05:fails-iff-full] (err != nil) <==> (forall i uint in 0..blen(a.bitmap): old(bits(a.bitmap))[i])
+//@   ensures[C05:failure-changes-nothing] err != nil ==> (err == allocators.ErrNoAddrAvail && bits(a.bitmap) == old(bits(a.bitmap)))
+//@   ensures[C04,C05:in-range-and-was-free] err == nil ==> (len(n.IP) == 4 && u32be(n.IP) >= a.start && u32be(n.IP) <= a.end && \
+//@       !old(bits(a.bitmap))[uint(u32be(n.IP) - a.start)] && \
+//@       bits(a.bitmap) == upd(old(bits(a.bitmap)), uint(u32be(n.IP) - a.start), true))
+//@   ensures[C05:slash32] err == nil ==> (len(n.Mask) == 4 && u32be(n.Mask) == 4294967295)
+//@   ensures[C07:hint-honoured] (inrange4(a, hint.IP) && !old(bits(a.bitmap))[off4(a, hint.IP)]) ==> (err == nil && u32be(n.IP) == v4of(hint.IP))
+
+//@ func (*IPv4Allocator).Free
+//@   requires wf4(a) && !held(a.l)
+//@   modifies bits(a.bitmap), held(a.l)
+//@   ensures wf4(a) && !held(a.l)
+//@   ensures[C06:succeeds-iff-outstanding] (ret == nil) <==> (inrange4(a, n.IP) && old(bits(a.bitmap))[off4(a, n.IP)])
+//@   ensures[C06:releases-exactly-that] ret == nil ==> bits(a.bitmap) == upd(old(bits(a.bitmap)), off4(a, n.IP), false)
+//@   ensures[C06:failure-changes-nothing] ret != nil ==> bits(a.bitmap) == old(bits(a.bitmap))
+
+//@ func NewIPv4Allocator
+//@   modifies nothing
+//@   ensures[C05:accepts-iff-nonempty-range] (ret1 == nil) <==> (isv4(start) && isv4(end) && v4of(start) <= v4of(end))
+//@   ensures[C04,C05:empty-and-exact-size] ret1 == nil ==> (fresh(ret0) && wf4(ret0) && !held(ret0.l) && ret0.start == v4of(start) && ret0.end == v4of(end) && \
+//@       bits(ret0.bitmap) == emptyset(uint))
+//@   ensures ret1 != nil ==> ret0 == nil
+
+// C04 (no overlap) for the IPv4 allocator: distinct offsets of the range are distinct addresses.
+//@ lemma v4_blocks_distinct(start uint32, end uint32, i uint, j uint)
+//@   requires start <= end && i <= uint(end - start) && j <= uint(end - start) && i != j
+//@   ensures[C04:v4-blocks-distinct] start + uint32(i) != start + uint32(j)
+//@   ensures[C05:v4-blocks-in-range] start + uint32(i) >= start && start + uint32(i) <= end
